@@ -1008,6 +1008,32 @@ def isolated(ctx, fn, *args):
     return res
 
 
+_stop_flag = None
+
+
+def arm_early_stop():
+    '''Optional (VERIF_STOP_EARLY=1, used for mutant runs): once a chunk of tasks has produced a violation the
+    remaining tasks are skipped; the run then reports the cap and is not exhaustive.'''
+    global _stop_flag
+    import os
+    from mc import bootstrap
+    _stop_flag = None
+    if os.environ.get('VERIF_STOP_EARLY'):
+        _stop_flag = os.path.join(bootstrap.tmpdir(), 'stop-%d' % os.getpid())
+        if os.path.exists(_stop_flag):
+            os.unlink(_stop_flag)
+
+
+def stopped():
+    import os
+    return _stop_flag is not None and os.path.exists(_stop_flag)
+
+
+def stop_if_violated(ctx):
+    if _stop_flag is not None and ctx.violations:
+        open(_stop_flag, 'w').close()
+
+
 def translate(host, home, text, entry='action'):
     '''Place *text* in the home, prebuild it and generate text back.'''
     import bridgepoint
@@ -1765,3 +1791,466 @@ def all_tasks(tier, seed=0):
                   expression_depth=3 if tier == 'quick' else 4,
                   chain_steps=2 if tier == 'quick' else 3, homes=HOMES)
     return tasks, bounds
+
+
+# ---------------------------------------------------------------------------
+# Part 7 -- the C06 oracle: walk the prebuilt population side by side with the
+# expected tree of the program.
+# ---------------------------------------------------------------------------
+
+BODY_OF = {'function': ('ACT_FNB', 695), 'bridge': ('ACT_BRB', 697), 'operation': ('ACT_OPB', 696), 'attribute': ('ACT_DAB', 693)}
+
+STMT_KIND = {
+    'AssignmentNode': 'ACT_AI', 'BreakNode': 'ACT_BRK', 'ContinueNode': 'ACT_CON', 'ControlNode': 'ACT_CTL',
+    'ReturnNode': 'ACT_RET', 'CreateObjectNode': 'ACT_CR', 'CreateObjectNoVariableNode': 'ACT_CNV', 'DeleteNode': 'ACT_DEL',
+    'RelateNode': 'ACT_REL', 'RelateUsingNode': 'ACT_RU', 'UnrelateNode': 'ACT_UNR', 'UnrelateUsingNode': 'ACT_URU',
+    'SelectFromNode': 'ACT_FIO', 'SelectFromWhereNode': 'ACT_FIW', 'SelectRelatedNode': 'ACT_SEL',
+    'SelectRelatedWhereNode': 'ACT_SEL', 'IfNode': 'ACT_IF', 'WhileNode': 'ACT_WHL', 'ForEachNode': 'ACT_FOR',
+}
+INVOCATION_STMT = {'function': ('ACT_FNC', 669), 'bridge': ('ACT_BRG', 628), 'class-operation': ('ACT_TFM', 627),
+                   'instance-operation': ('ACT_TFM', 627)}
+INVOCATION_VAL = {'function': ('V_FNV', 817), 'bridge': ('V_BRV', 810), 'class-operation': ('V_TRV', 811),
+                  'instance-operation': ('V_TRV', 811)}
+VALUE_KIND = {
+    'IntegerNode': 'V_LIN', 'RealNode': 'V_LRL', 'StringNode': 'V_LST', 'BooleanNode': 'V_LBO', 'SelfAccessNode': 'V_IRF',
+    'SelectedAccessNode': 'V_SLR', 'ParamAccessNode': 'V_PVL', 'FieldAccessNode': 'V_AVL', 'IndexAccessNode': 'V_AER',
+    'UnaryOperationNode': 'V_UNY', 'BinaryOperationNode': 'V_BIN',
+}
+VAR_USE = {'V_IRF': 808, 'V_ISR': 809, 'V_TVL': 805}
+RELATE_VARS = {'ACT_REL': (615, 616, None), 'ACT_RU': (617, 618, 619), 'ACT_UNR': (620, 621, None), 'ACT_URU': (622, 623, 624)}
+
+
+def null_id(x):
+    return x is None or x == 0
+
+
+class Walk(object):
+    def __init__(self, sub, host, task, printed, text, spans, an):
+        import xtuml
+        self.sub, self.host, self.m, self.task = sub, host, host.m, task
+        self.p, self.text, self.spans, self.an = printed, text, spans, an
+        self.one, self.many = xtuml.navigate_one, xtuml.navigate_many
+        self.reported = set()
+        self.checks = 0
+        self.seen_smt, self.seen_val, self.seen_var, self.seen_blk = set(), set(), set(), set()
+        self.loose = []          # expected nodes whose value instance nothing refers to (statement invocations, operation targets)
+
+    # -- reporting --------------------------------------------------------------------------------------------
+    def bad(self, sig, message, expected=None, observed=None):
+        if sig in self.reported:
+            return
+        self.reported.add(sig)
+        self.sub.violation('c06:' + sig, case_of(self.task),
+                           '%s  [program %r, %s home, layout %s]' % (message, self.text, self.task['home'], self.task.get('layout', 'default')),
+                           expected, observed, unit_test(self.text, self.task['home']))
+
+    def check(self, ok, sig, message, expected=None, observed=None):
+        self.checks += 1
+        if not ok:
+            self.bad(sig, message, expected, observed)
+        return ok
+
+    def src(self, node):
+        return self.text[self.spans[node['first']][0]:self.spans[node['last']][1]]
+
+    def pos(self, node):
+        from mc.refs.oalast import line_col
+        s, e = self.spans[node['first']][0], self.spans[node['last']][1]
+        sl, sc = line_col(self.text, s)
+        _, ec = line_col(self.text, e - 1)
+        return (sl, sc, ec)
+
+    def nav1(self, inst, kind, rel):
+        return getattr(self.one(inst), kind)[rel]()
+
+    def navn(self, inst, kind, rel):
+        return list(getattr(self.many(inst), kind)[rel]())
+
+    # -- subtypes -----------------------------------------------------------------------------------------------
+    def subtype_table(self, rel, sup):
+        kinds = schema_constraints()[2]['R%d' % rel, sup]
+        live = [k for k in kinds if self.m.select_any(k) is not None]
+        table = {}
+        for inst in self.m.select_many(sup):
+            found = []
+            for k in live:
+                for x in self.navn(inst, k, rel):
+                    found.append((k, x))
+            table[inst] = found
+            self.check(len(found) == 1, 'subtype-count:%s' % sup,
+                       'a %s instance has %d subtypes across R%d: %s' % (sup, len(found), rel, [k for k, _ in found]),
+                       'exactly one subtype', [k for k, _ in found])
+        return table
+
+    # -- entry ----------------------------------------------------------------------------------------------------
+    def run(self):
+        self.sub603 = self.subtype_table(603, 'ACT_SMT')
+        self.sub801 = self.subtype_table(801, 'V_VAL')
+        kind, rel = BODY_OF[self.task['home']]
+        inst = self.host.homes[self.task['home']]
+        act_act = getattr(self.one(inst), kind)[rel].ACT_ACT[698]()
+        if not self.check(act_act is not None, 'structure:body', 'the home has no action body after prebuild'):
+            return
+        outer = self.nav1(act_act, 'ACT_BLK', 666)
+        if not self.check(outer is not None, 'structure:body', 'the action has no outer block'):
+            return
+        self.block(self.p.expected['fields']['block'], outer)
+        everything = [(self.seen_smt, 'ACT_SMT', 'statement'), (self.seen_blk, 'ACT_BLK', 'block')]
+        for seen, kind, what in everything:
+            extra = [x for x in self.m.select_many(kind) if x not in seen]
+            self.check(not extra, 'structure:unexpected-%s' % what,
+                       '%d %s instances do not correspond to anything in the program' % (len(extra), kind))
+        spots = set(self.pos(n) for n in self.loose)
+        for v in self.m.select_many('V_VAL'):
+            if v not in self.seen_val:
+                got = (v.LineNumber, v.StartPosition, v.EndPosition)
+                self.check(got in spots, 'position:value:unreferenced',
+                           'a V_VAL no statement or value refers to has the position %s of no invocation or operation target' % (got,),
+                           sorted(spots), got)
+        for v in self.m.select_many('V_VAR'):
+            if v not in self.seen_var:
+                self.check(v.Name == 'self', 'variable-block:unreferenced',
+                           'variable %r of the population is not a variable of the program' % v.Name)
+
+    # -- blocks and statements -------------------------------------------------------------------------------------------
+    def block(self, node, act_blk):
+        if not self.check(act_blk is not None, 'structure:block', 'a block of the program has no ACT_BLK'):
+            return
+        node['inst'] = act_blk
+        self.seen_blk.add(act_blk)
+        exp = node['fields']['statement_list']['fields']['children']
+        real = []
+        for s in self.navn(act_blk, 'ACT_SMT', 602):
+            kinds = [k for k, _ in self.sub603.get(s, [])]
+            if 'ACT_EL' in kinds or 'ACT_E' in kinds:
+                continue
+            real.append(s)
+        if not self.check(len(real) == len(exp), 'structure:statement-count',
+                          'a block of %d statements has %d ACT_SMT instances' % (len(exp), len(real)), len(exp), len(real)):
+            return
+        by_pos = {}
+        for s in real:
+            by_pos.setdefault((s.LineNumber, s.StartPosition), []).append(s)
+        matched = []
+        for e in exp:
+            c = by_pos.get(self.pos(e)[:2], [])
+            if len(c) != 1:
+                matched = real            # fall back to creation order; the position mismatch is reported per statement
+                break
+            matched.append(c[0])
+        ids = [s.Statement_ID for s in matched]
+        prevs = [getattr(s, 'Previous_Statement_ID') for s in matched]
+        want = [None] + ids[:-1]
+        same = all((null_id(p) and w is None) or p == w for p, w in zip(prevs, want))
+        if not same:
+            mirrored = len(ids) > 1 and all((null_id(p) and w is None) or p == w for p, w in zip(prevs, ids[1:] + [None]))
+            self.check(False, 'statement-chain-direction' if mirrored else 'statement-chain',
+                       'ACT_SMT.Previous_Statement_ID of the statements of a block designates %s' %
+                       ('the NEXT statement (none for the last)' if mirrored else 'something else than the previous statement'),
+                       ['none' if w is None else 'statement %d' % ids.index(w) for w in want],
+                       ['none' if null_id(p) else ('statement %d' % ids.index(p) if p in ids else 'a foreign statement') for p in prevs])
+        else:
+            self.checks += 1
+        for e, s in zip(exp, matched):
+            self.stmt(e, s)
+
+    def smt_head(self, e, s, kind, positions=True):
+        '''Common checks of one statement; returns the subtype instance or None.'''
+        self.seen_smt.add(s)
+        found = self.sub603.get(s, [])
+        if not self.check([k for k, _ in found] == [kind], 'structure:statement-kind',
+                          'statement %r is a %s in the population' % (self.src(e), [k for k, _ in found]), kind, [k for k, _ in found]):
+            return None
+        if positions:
+            got = (s.LineNumber, s.StartPosition, s.EndPosition)
+            self.check(got == self.pos(e), 'position:statement:%s' % kind,
+                       'ACT_SMT of %r carries line/start/end column %s, its source text has %s' % (self.src(e), got, self.pos(e)),
+                       self.pos(e), got)
+        return found[0][1]
+
+    def stmt(self, e, s):
+        cls = e['cls']
+        if cls == 'InvocationStatementNode':
+            inv = e['fields']['invocation']
+            kind, rel = INVOCATION_STMT[inv['kind']]
+            x = self.smt_head(e, s, kind)
+            if x is None:
+                return
+            self.loose.append(inv)
+            if inv['kind'] == 'instance-operation':
+                self.handle_var(inv['fields']['handle'], self.nav1(x, 'V_VAR', 667))
+                self.loose.append(inv['fields']['handle'])
+            self.params(inv, self.navn(x, 'V_PAR', rel))
+            return
+        x = self.smt_head(e, s, STMT_KIND[cls])
+        if x is None:
+            return
+        f = e['fields']
+        if cls == 'AssignmentNode':
+            self.value(f['expression'], self.nav1(x, 'V_VAL', 609))
+            l = f['variable_access']
+            root = l
+            while root['cls'] == 'IndexAccessNode':
+                root = root['fields']['handle']
+            if root.get('declares'):
+                root['var'].observed = f['expression'].get('observed_t')
+            self.value(l, self.nav1(x, 'V_VAL', 689))
+        elif cls == 'ReturnNode':
+            v = self.nav1(x, 'V_VAL', 668)
+            if f['expression'] is None:
+                self.check(v is None, 'structure:return-value', 'a bare return has a value')
+            else:
+                self.value(f['expression'], v)
+        elif cls == 'CreateObjectNode':
+            self.var_ref(e['vars']['variable_name'], self.nav1(x, 'V_VAR', 633))
+        elif cls == 'DeleteNode':
+            self.var_ref(e['vars']['variable_name'], self.nav1(x, 'V_VAR', 634))
+        elif cls in ('RelateNode', 'RelateUsingNode', 'UnrelateNode', 'UnrelateUsingNode'):
+            a, b, u = RELATE_VARS[STMT_KIND[cls]]
+            self.var_ref(e['vars']['from_variable_name'], self.nav1(x, 'V_VAR', a))
+            self.var_ref(e['vars']['to_variable_name'], self.nav1(x, 'V_VAR', b))
+            if u:
+                self.var_ref(e['vars']['using_variable_name'], self.nav1(x, 'V_VAR', u))
+        elif cls == 'SelectFromNode':
+            self.var_ref(e['vars']['variable_name'], self.nav1(x, 'V_VAR', 639))
+        elif cls == 'SelectFromWhereNode':
+            self.value(f['where_clause'], self.nav1(x, 'V_VAL', 610))
+            self.var_ref(e['vars']['variable_name'], self.nav1(x, 'V_VAR', 665))
+        elif cls in ('SelectRelatedNode', 'SelectRelatedWhereNode'):
+            self.value(f['handle'], self.nav1(x, 'V_VAL', 613))
+            self.chain(e, x)
+            self.var_ref(e['vars']['variable_name'], self.nav1(x, 'V_VAR', 638))
+            if cls == 'SelectRelatedWhereNode':
+                srw = self.nav1(x, 'ACT_SRW', 664)
+                if self.check(srw is not None, 'structure:where', 'select ... where has no ACT_SRW'):
+                    self.value(f['where_clause'], self.nav1(srw, 'V_VAL', 611))
+        elif cls == 'IfNode':
+            self.value(f['expression'], self.nav1(x, 'V_VAL', 625))
+            self.block(f['block'], self.nav1(x, 'ACT_BLK', 607))
+            exp = f['elif_list']['fields']['children']
+            els = self.navn(x, 'ACT_EL', 682)
+            if self.check(len(els) == len(exp), 'structure:elif-count', 'if with %d elif clauses has %d ACT_EL' % (len(exp), len(els))):
+                # pair the clauses by the position of their conditions
+                conds = {}
+                for el in els:
+                    v = self.nav1(el, 'V_VAL', 659)
+                    if v is not None:
+                        conds[(v.LineNumber, v.StartPosition)] = el
+                ordered = [conds.get(self.pos(c['fields']['expression'])[:2]) for c in exp]
+                if None in ordered or len(set(map(id, ordered))) != len(exp):
+                    ordered = els
+                for c, el in zip(exp, ordered):
+                    self.pseudo(el)
+                    self.value(c['fields']['expression'], self.nav1(el, 'V_VAL', 659))
+                    self.block(c['fields']['block'], self.nav1(el, 'ACT_BLK', 658))
+            act_e = self.nav1(x, 'ACT_E', 683)
+            if f['else_clause'] is None:
+                self.check(act_e is None, 'structure:else', 'if without else has an ACT_E')
+            elif self.check(act_e is not None, 'structure:else', 'else clause has no ACT_E'):
+                self.pseudo(act_e)
+                self.block(f['else_clause']['fields']['block'], self.nav1(act_e, 'ACT_BLK', 606))
+        elif cls == 'WhileNode':
+            self.value(f['expression'], self.nav1(x, 'V_VAL', 626))
+            self.block(f['block'], self.nav1(x, 'ACT_BLK', 608))
+        elif cls == 'ForEachNode':
+            self.var_ref(e['vars']['instance_variable_name'], self.nav1(x, 'V_VAR', 614))
+            self.var_ref(e['vars']['set_variable_name'], self.nav1(x, 'V_VAR', 652))
+            self.block(f['block'], self.nav1(x, 'ACT_BLK', 605))
+
+    def pseudo(self, sub):
+        '''elif / else clauses are statements of the population too; only their subtype count is claimed.'''
+        s = self.nav1(sub, 'ACT_SMT', 603)
+        if s is not None:
+            self.seen_smt.add(s)
+
+    def chain(self, e, act_sel):
+        exp = [(self.an.f(st, 'key_letter'), self.an.f(st, 'rel_id'), self.an.f(st, 'phrase'))
+               for st in e['fields']['navigation_chain']['fields']['children']]
+        links = dict((l.Link_ID, l) for l in self.m.select_many('ACT_LNK'))
+        seq = []
+        cur = self.nav1(act_sel, 'ACT_LNK', 637)
+        while cur is not None and len(seq) <= len(exp) + 1:
+            seq.append(cur)
+            nxt = getattr(cur, 'Next_Link_ID')
+            cur = None if null_id(nxt) else links.get(nxt)
+
+        def describe(l):
+            o, r = self.nav1(l, 'O_OBJ', 678), self.nav1(l, 'R_REL', 681)
+            return (o.Key_Lett if o else None, 'R%d' % r.Numb if r else None, l.Rel_Phrase or '')
+        got = [describe(l) for l in seq]
+        if got != exp:
+            mirrored = len(exp) > 1 and got == exp[::-1]
+            self.check(False, 'link-chain-direction' if mirrored else 'link-chain',
+                       'following ACT_LNK.Next_Link_ID from the first step of %r visits %s' % (self.src(e), got), exp, got)
+        else:
+            self.checks += 1
+
+    def params(self, inv, v_pars):
+        exp = inv['fields']['parameter_list']['fields']['children']
+        names = [self.an.f(p, 'name') for p in exp]
+        by_name = dict((p.Name, p) for p in v_pars)
+        if not self.check(len(v_pars) == len(exp) and sorted(by_name) == sorted(names), 'structure:parameters',
+                          'invocation %r has the parameters %s in the population' % (self.src(inv), sorted(p.Name for p in v_pars)),
+                          names, sorted(p.Name for p in v_pars)):
+            return
+        ordered = [by_name[n] for n in names]
+        ids = [p.Value_ID for p in ordered]
+        nexts = [getattr(p, 'Next_Value_ID') for p in ordered]
+        want = ids[1:] + [None]
+        same = all((null_id(n) and w is None) or n == w for n, w in zip(nexts, want))
+        if not same:
+            mirrored = len(ids) > 1 and all((null_id(n) and w is None) or n == w for n, w in zip(nexts, [None] + ids[:-1]))
+            self.check(False, 'parameter-chain-direction' if mirrored else 'parameter-chain',
+                       'V_PAR.Next_Value_ID of the parameters of %r designates %s' %
+                       (self.src(inv), 'the PREVIOUS parameter (none for the first)' if mirrored else 'something else than the next parameter'),
+                       ['none' if w is None else names[ids.index(w)] for w in want],
+                       ['none' if null_id(n) else (names[ids.index(n)] if n in ids else 'a foreign parameter') for n in nexts])
+        else:
+            self.checks += 1
+        for p, v_par in zip(exp, ordered):
+            self.value(p['fields']['expression'], self.nav1(v_par, 'V_VAL', 800))
+
+    # -- variables -------------------------------------------------------------------------------------------------------
+    def var_ref(self, var, v_var):
+        '''A reference of the program to *var* (None: self) resolved to the instance v_var.'''
+        if not self.check(v_var is not None, 'structure:variable', 'a variable reference of the program has no V_VAR'):
+            return
+        self.seen_var.add(v_var)
+        dt = self.nav1(v_var, 'S_DT', 848)
+        if var is None:
+            self.check(dt is not None and dt.Name == inst_t('A'), 'type:self', 'self is typed %s' % (dt.Name if dt else None), inst_t('A'),
+                       dt.Name if dt else None)
+            return
+        self.check(v_var.Name == var.name, 'structure:variable-name', 'reference to %s resolves to the variable %s' % (var.name, v_var.Name))
+        blk = self.nav1(v_var, 'ACT_BLK', 823)
+        self.check(blk is not None and blk is var.block.get('inst'), 'variable-block',
+                   'variable %s is related (R823) to %s, not to the block of the statement that declares it (a block of nesting depth %d)' %
+                   (var.name, 'no block' if blk is None else 'another block', var.block['depth']))
+        want = var.t if var.claimed else getattr(var, 'observed', None)
+        if want is not None:
+            self.check(dt is not None and dt.Name == want, 'type:variable-declaration',
+                       'variable %s is typed %s; the value first assigned to it is %s' % (var.name, dt.Name if dt else None, want),
+                       want, dt.Name if dt else None)
+
+    def handle_var(self, h, v_var):
+        if h['cls'] == 'SelfAccessNode':
+            self.var_ref(None, v_var)
+        else:
+            self.var_ref(h['var'], v_var)
+
+    # -- values ---------------------------------------------------------------------------------------------------------------
+    def value(self, e, v):
+        if not self.check(v is not None, 'structure:value', 'expression %r has no V_VAL where the statement expects it' % self.src(e)):
+            return
+        self.seen_val.add(v)
+        cls = e['cls']
+        var = e.get('var')
+        if cls == 'VariableAccessNode':
+            k = class_of(var.t)
+            kind = 'V_TVL' if not k else ('V_ISR' if k[1] else 'V_IRF')
+        elif cls == 'EnumOrNamedConstantNode':
+            kind = 'V_LEN' if e['claim'] == 'enumerator' else 'V_SCV'
+        elif cls.endswith('InvocationNode'):
+            kind = INVOCATION_VAL[e['kind']][0]
+        else:
+            kind = VALUE_KIND[cls]
+        found = self.sub801.get(v, [])
+        dt = self.nav1(v, 'S_DT', 820)
+        e['observed_t'] = dt.Name if dt is not None else None
+        if not self.check([k for k, _ in found] == [kind], 'structure:value-kind',
+                          'expression %r is a %s in the population' % (self.src(e), [k for k, _ in found]), kind, [k for k, _ in found]):
+            return
+        x = found[0][1]
+        got = (v.LineNumber, v.StartPosition, v.EndPosition)
+        self.check(got == self.pos(e), 'position:value:%s' % kind,
+                   'V_VAL of %r carries line/start/end column %s, its source text has %s' % (self.src(e), got, self.pos(e)), self.pos(e), got)
+        claim = e.get('claim')
+        if claim:
+            want = e['t']
+            if claim == 'variable' and var is not None and not var.claimed:
+                want = getattr(var, 'observed', None)
+            if want is not None:
+                self.check(e['observed_t'] == want, 'type:%s' % claim,
+                           'expression %r is related (R820) to the data type %s; under OAL typing it is %s (%s)' %
+                           (self.src(e), e['observed_t'], want, claim), want, e['observed_t'])
+        f = e['fields']
+        if cls == 'VariableAccessNode':
+            self.var_ref(var, self.nav1(x, 'V_VAR', VAR_USE[kind]))
+        elif cls == 'SelfAccessNode':
+            self.var_ref(None, self.nav1(x, 'V_VAR', 808))
+        elif cls == 'FieldAccessNode':
+            self.value(f['handle'], self.nav1(x, 'V_VAL', 807))
+        elif cls == 'IndexAccessNode':
+            self.value(f['handle'], self.nav1(x, 'V_VAL', 838))
+            self.value(f['expression'], self.nav1(x, 'V_VAL', 839))
+        elif cls == 'UnaryOperationNode':
+            self.value(f['operand'], self.nav1(x, 'V_VAL', 804))
+        elif cls == 'BinaryOperationNode':
+            self.value(f['left'], self.nav1(x, 'V_VAL', 802))
+            self.value(f['right'], self.nav1(x, 'V_VAL', 803))
+        elif cls.endswith('InvocationNode'):
+            if e['kind'] == 'instance-operation':
+                self.handle_var(f['handle'], self.nav1(x, 'V_VAR', 830))
+                self.loose.append(f['handle'])
+            self.params(e, self.navn(x, 'V_PAR', INVOCATION_VAL[e['kind']][1]))
+
+
+def c06_child(sub, host, task):
+    '''Child: translate, then check the population.'''
+    import bridgepoint
+    from mc.refs import oalast
+    full, printed, an = complete(task['stmts'], task['home'])
+    text, spans = oalast.assemble(printed, layout_of(printed, task.get('layout')))
+    case = case_of(task)
+    inst = host.homes[task['home']]
+    inst.Action_Semantics_internal = text
+    inst.Suc_Pars = 1
+    sub.count('translations')
+    try:
+        if task.get('entry') == 'model':
+            bridgepoint.prebuild_model(host.m)
+        else:
+            bridgepoint.prebuild_action(inst)
+    except Exception as e:
+        sub.violation('c06:%s:translate-exception:%s' % (task['family'], type(e).__name__), case,
+                      'translating %r in the %s home raised %s: %s' % (text, task['home'], type(e).__name__, e),
+                      'a population', repr(e), unit_test(text, task['home']))
+        return False
+    n0 = len(sub.violations)
+    consistent = host.m.is_consistent()
+    sub.count('checks')
+    mine = constraint_violations(host.m)
+    sub.count('checks')
+    if not consistent or mine:
+        rels = sorted(set(x.split(':')[0] for x in mine))
+        sub.violation('c06:consistency:%s' % (rels[0] if rels else 'is_consistent'), case,
+                      'after prebuilding %r (%s home) is_consistent() is %s and the schema constraints counted from the persisted '
+                      'attribute values are violated %d times: %s' % (text, task['home'], consistent, len(mine), mine[:4]),
+                      'is_consistent() and no violated multiplicity or uniqueness constraint', mine[:8] or consistent,
+                      unit_test(text, task['home'], 'print(host.m.is_consistent())'))
+    w = Walk(sub, host, task, printed, text, spans, an)
+    w.run()
+    sub.count('checks', w.checks)
+    sub.count('values', len(w.seen_val))
+    sub.count('statements', len(w.seen_smt))
+    return len(sub.violations) == n0
+
+
+def c06_run(ctx, task):
+    '''One (program, home) state of C06 under each of its layouts.'''
+    r = complete(task['stmts'], task['home'])
+    if r is None:
+        raise ValueError('task is not well-formed: %r' % (task,))
+    ok = True
+    for lay in task.get('layouts') or [task.get('layout', 'default')]:
+        t = dict(task, layout=lay)
+        t.pop('layouts', None)
+        ctx.count('runs')
+        res = isolated(ctx, c06_child, t)
+        if isinstance(res, tuple):
+            hang_or_crash(ctx, 'c06', t, res)
+            ok = False
+        else:
+            ok = ok and bool(res)
+        ctx.count('layout:' + lay)
+    record_coverage(ctx, dict(task, layout='-'), r[2], ok)
